@@ -41,6 +41,9 @@ const SAT_SRC: &[&str] = &[
     "satisfying(\\x -> x is int)",
     "satisfying(\\x -> throw \"no\")",
     "satisfying(\\x -> (x is list and len(x) > 0 and x[0] is int))",
+    "satisfying(\\x -> (x is list and sum(x) < 10))",
+    "satisfying(\\x -> (x is list and all(x map \\e -> e is int)))",
+    "satisfying(\\x -> (x is list and len(x) > 0 and x[0] is list and len(x[0]) > 0 and x[0][0] is int))",
 ];
 const STRUCT_ARITY: &[usize] = &[1, 2, 3];
 const PRELUDE: &str = "struct S0(f0a); struct S1(f1a, f1b); struct S2(f2a, f2b, f2c = 9);";
@@ -104,7 +107,9 @@ fn all_types() -> Vec<Ty> {
     v
 }
 fn gen_ty(rng: &mut Rng) -> Ty {
-    let all = all_types();
+    // (`sum` over float / complex elements is float arithmetic, outside the model: the sum type is
+    // used in the histories and the `is` matrix only, where the elements are exact)
+    let all: Vec<Ty> = all_types().into_iter().filter(|t| *t != Ty::Sat(7)).collect();
     if rng.chance(1, 3) {
         Ty::Any
     } else {
@@ -375,10 +380,38 @@ enum Bi {
     OtherInfix, // `++`
     OtherCall,  // `max(…)`
 }
+/// one step of an index path
+#[derive(Clone, Debug, PartialEq)]
+enum Ix {
+    I(V),
+    S(Option<V>, Option<V>),
+}
+impl Ix {
+    fn src(&self) -> String {
+        match self {
+            Ix::I(v) => v.src(),
+            Ix::S(lo, hi) => format!(
+                "{}:{}",
+                lo.as_ref().map(|v| v.src()).unwrap_or_default(),
+                hi.as_ref().map(|v| v.src()).unwrap_or_default()
+            ),
+        }
+    }
+    fn proto(&self) -> String {
+        match self {
+            Ix::I(v) => v.proto(),
+            Ix::S(lo, hi) => format!(
+                "@{}:{}",
+                lo.as_ref().map(|v| v.proto()).unwrap_or_default(),
+                hi.as_ref().map(|v| v.proto()).unwrap_or_default()
+            ),
+        }
+    }
+}
 #[derive(Clone, Debug, PartialEq)]
 enum P {
     Underscore,
-    Ident(usize, Vec<V>),
+    Ident(usize, Vec<Ix>),
     Anno(Box<P>, Option<V>),
     Default(Box<P>, V),
     Seq(Vec<P>, bool),
@@ -1054,7 +1087,7 @@ impl Stmt {
 }
 /// declared type + initial value of a history variable
 fn hist_var(rng: &mut Rng) -> (Ty, V) {
-    match rng.below(16) {
+    match rng.below(26) {
         0 | 1 => (Ty::Int, V::Int(rng.range(-2, 9) as i128)),
         2 => (Ty::Number, if rng.chance(1, 2) { V::Int(2) } else { V::Rat(1, 2) }),
         3 => (Ty::Rational, V::Rat(rng.range(1, 5), 2)),
@@ -1067,6 +1100,11 @@ fn hist_var(rng: &mut Rng) -> (Ty, V) {
         11 => (Ty::Sat(4), V::Int(7)),
         12 => (Ty::Struct(1), V::Inst(1, vec![V::Int(1), V::Int(2)])),
         13 | 14 => (Ty::Sat(6), V::List(vec![V::Int(1), V::Int(2), V::Int(3)])),
+        16 | 17 => (Ty::Sat(7), V::List(vec![V::Int(1), V::Int(2), V::Int(3)])),
+        18 | 19 => (Ty::Sat(8), V::List(vec![V::Int(1), V::Int(2)])),
+        20 | 21 => (Ty::Sat(9), V::List(vec![V::List(vec![V::Int(1), V::Int(2)]), V::Int(3)])),
+        22 | 23 => (Ty::Stream, V::Range(1, 3)),
+        24 => (Ty::Vector, V::Vector(vec![V::Int(1), V::Int(2)])),
         _ => (Ty::Any, V::List(vec![V::Int(4), V::Str("a".into())])),
     }
 }
@@ -1090,6 +1128,11 @@ fn hist_val(rng: &mut Rng, t: &Ty) -> V {
         Ty::Str => V::Str(rng.pick(&["", "u", "vw"]).to_string()),
         Ty::List => V::List((0..rng.below(4)).map(|_| V::Int(rng.range(0, 9) as i128)).collect()),
         Ty::Sat(1) => V::List((0..1 + rng.below(3)).map(|_| V::Int(rng.range(0, 9) as i128)).collect()),
+        Ty::Sat(7) => V::List((0..rng.below(4)).map(|_| V::Int(rng.range(0, 6) as i128)).collect()),
+        Ty::Sat(8) => if rng.chance(1, 4) { V::List(vec![V::Int(1), V::Rat(1, 2)]) } else { V::List((0..rng.below(3)).map(|_| V::Int(rng.range(0, 9) as i128)).collect()) },
+        Ty::Sat(9) => if rng.chance(1, 4) { V::List(vec![V::Int(1)]) } else { V::List(vec![V::List(vec![V::Int(rng.range(0, 5) as i128)]), V::Int(2)]) },
+        Ty::Stream => if rng.chance(1, 3) { V::List(vec![V::Int(1)]) } else { V::Range(0, rng.range(0, 3)) },
+        Ty::Vector => if rng.chance(1, 3) { V::List(vec![V::Int(1)]) } else { V::Vector(vec![V::Int(3), V::Rat(1, 2)]) },
         Ty::Sat(6) => match rng.below(5) {
             0 => V::List(vec![]),
             1 => V::List(vec![V::Str("t".into()), V::Int(1)]),
@@ -1119,23 +1162,108 @@ fn hist_target(rng: &mut Rng, vars: &[(Ty, V)], avoid: &[usize]) -> (usize, P) {
             x = rng.below(vars.len() as u64) as usize;
         }
     }
-    let ixs = if rng.chance(2, 5) {
+    let small = |rng: &mut Rng| Some(V::Int(rng.range(-3, 3) as i128));
+    let slice = |rng: &mut Rng| {
+        let lo = if rng.chance(1, 2) { None } else { small(rng) };
+        let hi = if rng.chance(1, 2) { None } else { small(rng) };
+        Ix::S(lo, hi)
+    };
+    let ixs: Vec<Ix> = if rng.chance(1, 2) {
         match &vars[x].1 {
             V::List(xs) => {
-                let i = V::Int(rng.range(-(xs.len() as i64) - 1, xs.len() as i64) as i128);
-                if let Some(V::List(_)) = xs.get(0) {
-                    if rng.chance(1, 2) { vec![V::Int(0), V::Int(rng.range(-1, 2) as i128)] } else { vec![i] }
-                } else {
-                    vec![i]
+                let i = Ix::I(V::Int(rng.range(-(xs.len() as i64) - 1, xs.len() as i64) as i128));
+                let nested = matches!(xs.get(0), Some(V::List(_)));
+                match rng.below(6) {
+                    0 | 1 if nested => vec![Ix::I(V::Int(0)), Ix::I(V::Int(rng.range(-1, 2) as i128))],
+                    2 if nested => vec![Ix::I(V::Int(0)), slice(rng)],
+                    3 if nested => vec![Ix::S(None, Some(V::Int(1))), Ix::I(V::Int(rng.range(0, 1) as i128))],
+                    4 | 5 => vec![slice(rng)],
+                    _ => vec![i],
                 }
             }
-            V::Dict(_) => vec![V::Str(rng.pick(&["k", "j", "z"]).to_string())],
-            _ => if rng.chance(1, 4) { vec![V::Int(0)] } else { vec![] },
+            V::Range(..) | V::Vector(_) | V::Bytes(_) => {
+                if rng.chance(1, 4) { vec![slice(rng)] } else { vec![Ix::I(V::Int(rng.range(-1, 2) as i128))] }
+            }
+            V::Dict(_) => vec![Ix::I(V::Str(rng.pick(&["k", "j", "z"]).to_string()))],
+            _ => if rng.chance(1, 4) { vec![Ix::I(V::Int(0))] } else { vec![] },
         }
     } else {
         vec![]
     };
     (x, P::Ident(x, ixs))
+}
+/// a statement aimed at a variable whose type depends on its elements (or that an indexed write
+/// turns into a list): every statement form x paths of depth 0, 1, 2 and slices x a value / operator
+/// that breaks the type (mostly) or keeps it.  Each must either raise or leave `x is T` true.
+fn aimed_stmt(rng: &mut Rng, declared: &[(Ty, V)]) -> Option<Stmt> {
+    let cands: Vec<usize> = declared
+        .iter()
+        .enumerate()
+        .filter(|(_, (t, _))| matches!(t, Ty::Sat(1) | Ty::Sat(6) | Ty::Sat(7) | Ty::Sat(8) | Ty::Sat(9) | Ty::Stream | Ty::Vector))
+        .map(|(i, _)| i)
+        .collect();
+    if cands.is_empty() {
+        return None;
+    }
+    let x = *rng.pick(&cands);
+    let ty = declared[x].0.clone();
+    let breaking = rng.chance(3, 4);
+    // path: depth 0 / 1 / 2 / slice (/ slice then index)
+    let nested = matches!(ty, Ty::Sat(9));
+    let path: Vec<Ix> = match rng.below(if nested { 8 } else { 5 }) {
+        0 => vec![],
+        1 | 2 => vec![Ix::I(V::Int(rng.range(-1, 1) as i128))],
+        3 => vec![Ix::S(None, Some(V::Int(rng.range(1, 2) as i128)))],
+        4 => vec![Ix::S(if rng.chance(1, 2) { None } else { Some(V::Int(rng.range(-2, 0) as i128)) }, None)],
+        5 => vec![Ix::I(V::Int(0)), Ix::I(V::Int(rng.range(-1, 1) as i128))],
+        6 => vec![Ix::I(V::Int(0)), Ix::S(None, None)],
+        _ => vec![Ix::S(None, Some(V::Int(1))), Ix::I(V::Int(0))],
+    };
+    let target = P::Ident(x, path.clone());
+    // what to store in an element / the whole variable
+    let elem_bad = || -> V {
+        match ty {
+            Ty::Sat(7) => V::Int(50),
+            _ => V::Str("t".into()),
+        }
+    };
+    let whole_bad = match ty {
+        Ty::Sat(1) => V::List(vec![V::Int(1)]),
+        Ty::Sat(7) => V::List(vec![V::Int(9), V::Int(9)]),
+        Ty::Sat(8) => V::List(vec![V::Int(1), V::Rat(1, 2)]),
+        Ty::Sat(9) => V::List(vec![V::Int(1)]),
+        _ => V::List(vec![V::Str("t".into())]),
+    };
+    let value = if path.is_empty() {
+        if breaking { whole_bad.clone() } else { declared[x].1.clone() }
+    } else if nested && path.len() == 1 && matches!(path[0], Ix::I(_)) {
+        if breaking { V::Int(5) } else { V::List(vec![V::Int(4)]) }
+    } else if breaking {
+        elem_bad()
+    } else {
+        V::Int(1)
+    };
+    // an operator / operand that breaks (or keeps) an int element, or the whole list
+    let (op, opv) = if path.is_empty() {
+        if breaking { (Op::Append, elem_bad()) } else { (Op::Concat, V::List(vec![])) }
+    } else if breaking {
+        match rng.below(3) {
+            0 => (Op::Minus, V::Rat(1, 2)),
+            1 => (Op::Prepend, V::List(vec![V::Int(1)])),
+            _ => (Op::Times, V::Int(20)),
+        }
+    } else {
+        (Op::Times, V::Int(1))
+    };
+    let other = (x + 1) % declared.len();
+    Some(match rng.below(7) {
+        0 => Stmt::Assign(target, value),
+        1 => Stmt::OpAssign(target, op, opv),
+        2 => Stmt::Every(if rng.chance(1, 3) { P::Seq(vec![target, P::Underscore], false) } else { target }, value),
+        3 | 4 => Stmt::OpEvery(if rng.chance(1, 4) { P::Seq(vec![target], false) } else { target }, op, opv),
+        5 => Stmt::Swap(target, P::Ident(other, vec![])),
+        _ => Stmt::Assign(P::Seq(vec![target, P::Underscore], rng.chance(1, 3)), V::List(vec![value, V::Int(0)])),
+    })
 }
 fn gen_history(rng: &mut Rng, len: usize) -> (String, String, Vec<String>) {
     let nvars = 3 + rng.below(2) as usize; // x0..x{n-1} declared up front, x{n} left for a later declaration
@@ -1143,6 +1271,12 @@ fn gen_history(rng: &mut Rng, len: usize) -> (String, String, Vec<String>) {
     let declared = &vars[..nvars];
     let mut stmts: Vec<Stmt> = vec![];
     for _ in 0..len {
+        if rng.chance(2, 5) {
+            if let Some(st) = aimed_stmt(rng, declared) {
+                stmts.push(st);
+                continue;
+            }
+        }
         let r = rng.below(100);
         let st = if r < 22 {
             let (x, p) = hist_target(rng, declared, &[]);
@@ -1291,9 +1425,9 @@ fn gen_pattern_case(rng: &mut Rng) -> Case {
             // index path into a list / dict variable
             let x = rng.below(K as u64) as usize;
             let ix = match &env[x].2 {
-                V::List(_) => vec![V::Int(rng.range(-4, 3) as i128)],
-                V::Dict(_) => vec![if rng.chance(1, 2) { V::Str("k".into()) } else { V::Str("new".into()) }],
-                _ => vec![V::Int(0)],
+                V::List(_) => vec![Ix::I(V::Int(rng.range(-4, 3) as i128))],
+                V::Dict(_) => vec![Ix::I(if rng.chance(1, 2) { V::Str("k".into()) } else { V::Str("new".into()) })],
+                _ => vec![Ix::I(V::Int(0))],
             };
             p = P::Seq(vec![P::Ident(x, ix), p], false);
             let vv = V::List(vec![gen_val(rng, 1), v.clone()]);
@@ -1453,6 +1587,10 @@ fn type_cases(rng: &mut Rng, n_random: usize) -> Vec<(String, String, String, St
     let mut out = vec![];
     for v in &vals {
         for t in all_types() {
+            // `sum` over float elements is float arithmetic: outside the model
+            if t == Ty::Sat(7) && (v.proto().contains("f:") || v.proto().contains("c:")) {
+                continue;
+            }
             out.push((
                 format!("is:{}", t.name()),
                 format!("({}) is {}", v.src(), t.src()),
